@@ -1400,15 +1400,20 @@ Stylesheet::processExtensionNamespace(
             StylesheetConstructionContext&  theConstructionContext,
             const XalanDOMString&           uri)
 {
-    XalanMemMgrAutoPtr<ExtensionNSHandler>  theGuard(
-                                                theConstructionContext.getMemoryManager(),
-                                                ExtensionNSHandler::create(
-                                                    uri,
-                                                    theConstructionContext.getMemoryManager()));
+    // The same namespace can be named more than once, through
+    // several prefixes, or on several elements...
+    if (m_extensionNamespaces.find(uri) == m_extensionNamespaces.end())
+    {
+        XalanMemMgrAutoPtr<ExtensionNSHandler>  theGuard(
+                                                    theConstructionContext.getMemoryManager(),
+                                                    ExtensionNSHandler::create(
+                                                        uri,
+                                                        theConstructionContext.getMemoryManager()));
 
-    m_extensionNamespaces.insert(uri, theGuard.get());
+        m_extensionNamespaces.insert(uri, theGuard.get());
 
-    theGuard.release();
+        theGuard.release();
+    }
 
     m_namespacesHandler.addExtensionNamespaceURI(theConstructionContext, uri);
 }
